@@ -510,17 +510,17 @@ def partition_parents(tier):
 FAMILIES = [
     # name, generator, estimated seconds per case (for shard sizing only)
     ('struct', fam_struct, .12),
-    ('spline1d', fam_spline1d, .09),
-    ('spline2d', fam_spline2d, .2),
-    ('unstruct', fam_unstruct, .2),
-    ('hier1d', fam_hier1d, .15),
-    ('hier2d', fam_hier2d, .35),
-    ('trim', fam_trim, .25),
-    ('multipatch', fam_multipatch, .5),
-    ('box3d', fam_box3d, 1.),
-    ('tensor', fam_tensor, .3),
-    ('masked', None, 1.5),
-    ('partition', None, .8),
+    ('spline1d', fam_spline1d, .10),
+    ('spline2d', fam_spline2d, .19),
+    ('unstruct', fam_unstruct, .37),
+    ('hier1d', fam_hier1d, .17),
+    ('hier2d', fam_hier2d, .25),
+    ('trim', fam_trim, .17),
+    ('multipatch', fam_multipatch, .3),
+    ('box3d', fam_box3d, 1.15),
+    ('tensor', fam_tensor, .35),
+    ('masked', None, 1.3),
+    ('partition', None, .55),
 ]
 SHARD_S = {'quick': 14., 'thorough': 60.}
 
@@ -557,6 +557,11 @@ def key_of(oracle, c, stats):
     'root cause naming: the oracle that fails, the basis type, the class of the object, the kind of topology'
     if oracle in ('dofs-union-single', 'support-union-single'):
         return oracle    # function._int_or_vec, independent of the basis
+    if oracle == 'phantom-dof':
+        # over-counted functions: name the construction that counts, not the basis type it wraps
+        topo = c['topo']
+        how = 'pruned' if stats.get('class') == 'PrunedBasis' else 'hierarchical' if topo.get('hier') else str(stats.get('class'))
+        return 'phantom-dof:{}{}'.format(how, '[{}]'.format(c['derive']['kind']) if c.get('derive') else '')
     d = c.get('derive')
     impl = {'bernstein': 'c0-structured', 'lagrange': 'c0-structured'}.get(c['btype'], c['btype'])   # share TransformChainsTopology._basis_c0_structured
     parts = [oracle, impl + ('[{}]'.format(d['kind']) if d else ''), str(stats.get('class', '?'))]
@@ -607,7 +612,16 @@ def run_case(c, ctx=None):
     except Exception as e:
         import traceback
         tb = traceback.extract_tb(e.__traceback__)
-        where = '{}:{}'.format(tb[-1].filename.rsplit('/', 1)[-1], tb[-1].name) if tb else '?'
+        # who raised: walk from the innermost frame outwards to the first frame of nutils (a loud failure where the property
+        # promises a value: violation) or of this harness (a bug of the check: harness error, never a violation)
+        for fr in reversed(tb):
+            if '/nutils/' in fr.filename or '/nutils_poly/' in fr.filename:
+                where = '{}:{}'.format(fr.filename.rsplit('/', 1)[-1], fr.name)
+                break
+            if '/vmc/' in fr.filename:
+                raise
+        else:
+            raise
         fails = [('raise:{}:{}'.format(type(e).__name__, where), '{}: {}'.format(type(e).__name__, str(e)[:300]))]
     return fails, stats
 
